@@ -43,7 +43,7 @@ try:
             dst = os.path.join(repo, place)
             os.makedirs(os.path.dirname(dst), exist_ok=True)
             shutil.copy(demo_src, dst)
-        d = sh(meta["demo_cmd"].replace("/tmp/seed/%s" % os.path.basename(src.rstrip("/")), repo), repo, timeout=900)
+        d = sh(meta["demo_cmd"].replace(os.path.abspath(src), repo), repo, timeout=900)
         res["demo_" + variant] = d.returncode
     print("baseline:", res.get("baseline"), "| demo with patch rc=%s, without rc=%s" % (res["demo_with"], res["demo_without"]))
     if res["demo_with"] == 0 or res["demo_without"] != 0:
